@@ -183,7 +183,7 @@ PROPS = {
                      "Cambrian.Props.C04_nothing_after_return", "Cambrian.Props.C04_broadcast_once",
                      "Cambrian.Props.C04_target", "Cambrian.Props.C04_drain", "Cambrian.Props.C04_returns_best",
                      "Cambrian.Props.C04_one_abort_request", "Cambrian.Props.C04_terminate_first", "Cambrian.Props.C04_terminate_again",
-                     "Cambrian.Props.C04_time_limit_once"],
+                     "Cambrian.Props.C04_time_limit_once", "Cambrian.Props.C04_criteria_kept"],
         "correspondences": ["ctl", "proc", "run"],
         "trusted": CTL_TRUST,
         "assumptions": ["float laws used: none", "'delivered' = taken by the controller loop; a request racing with a completion may be honoured one completion later"],
